@@ -4,7 +4,7 @@
 //  (a) totality: every concatenation of <= 5 fragments from a 16-fragment vocabulary (keywords, punctuation, terms,
 //      escapes, comments, multi-byte characters) is parsed by parse_sparql_query / parse_combined_query and submitted
 //      to the error-preserving entry points without a panic; an accepted SELECT leaves no unconsumed input behind;
-//  (b) faithfulness: for 14 queries of the supported fragment, 6 layout variants (extra whitespace, newlines, comments,
+//  (b) faithfulness: for 14 queries of the supported fragment, 7 layout variants (extra whitespace, newlines, comments,
 //      lower/upper/mixed keyword case) parse to the same syntax tree as the canonical text.
 use kolibrie::execute_query::{execute_sparql_query, execute_sparql_update};
 use kolibrie::parser::{parse_combined_query, parse_sparql_query};
@@ -88,6 +88,19 @@ fn variants(q: &str) -> Vec<(String, String)> {
         ("newlines and tabs".into(), outside_literals(" \n\t")),
         ("comments between tokens".into(), outside_literals(" # a comment with { } and \"quotes\"\n ")),
         ("leading and trailing whitespace".into(), format!("\n  {}  \n# trailing comment", q)),
+        ("no optional white space".into(), {
+            // drop a blank that touches one of { } ( ) . ; , (outside literals and IRIs)
+            let cs: Vec<char> = q.chars().collect();
+            let mut out = String::new(); let mut in_lit = false; let mut in_iri = false;
+            let punct = |c: char| "{}().;,".contains(c);
+            for (i, &c) in cs.iter().enumerate() {
+                if c == '"' { in_lit = !in_lit; }
+                if !in_lit { if c == '<' && i + 1 < cs.len() && cs[i + 1] == 'h' { in_iri = true; } if c == '>' { in_iri = false; } }
+                if c == ' ' && !in_lit && !in_iri && ((i > 0 && punct(cs[i - 1])) || (i + 1 < cs.len() && punct(cs[i + 1]))) { continue; }
+                out.push(c);
+            }
+            out
+        }),
         ("lower-case keywords".into(), recase(&|w| w.to_lowercase())),
         ("mixed-case keywords".into(), recase(&mixed)),
     ]
@@ -164,13 +177,19 @@ fn generated_terms() -> Vec<(&'static str, String)> {
 
 #[test] fn w__parser__generated_terms_are_kept_verbatim_in_every_position() {
     // (text with the placeholder TERM, does the position admit literals, does it admit blank nodes)
-    let contexts: [(&str, bool, bool); 6] = [
+    let contexts: [(&str, bool, bool); 11] = [
         ("SELECT * WHERE { ?s <http://e/p> TERM }", true, true),
         ("SELECT * WHERE { ?s <http://e/p> TERM . }", true, true),
         ("SELECT * WHERE { ?s <http://e/p> TERM ; <http://e/q> ?z }", true, true),
         ("SELECT * WHERE { ?s <http://e/p> TERM . ?z <http://e/q> ?s }", true, true),
         ("SELECT * WHERE { TERM <http://e/p> ?o }", false, true),
         ("SELECT * WHERE { ?s ?p ?o FILTER(TERM = ?o) }", true, false),   // the expression grammar has no blank nodes
+        // the term directly followed by punctuation (no blank): where does the token end?
+        ("SELECT * WHERE { ?s <http://e/p> TERM. ?z <http://e/q> ?s }", true, true),
+        ("SELECT * WHERE { ?s <http://e/p> TERM; <http://e/q> ?z }", true, true),
+        ("SELECT * WHERE { ?s <http://e/p> TERM, ?z }", true, true),
+        ("SELECT * WHERE { ?s <http://e/p> TERM}", true, true),
+        ("SELECT * WHERE { ?s ?p ?o FILTER(?o = TERM) }", true, false),
     ];
     const CANON: &str = "zz:CANONICAL";
     let esc = |s: &str| { let d = format!("{:?}", s); d[1..d.len() - 1].to_string() };
@@ -222,4 +241,39 @@ fn generated_terms() -> Vec<(&'static str, String)> {
         let _ = no_panic("execute_sparql_update", &text, || execute_sparql_update(&text, &mut db).is_ok());
     }}}}}
     assert!(count > 5000);
+}
+
+// ---- (e) structure: the syntax tree spelled out for queries whose nesting, pattern order and modifiers are the point ----
+#[test] fn w__parser__structure_of_nested_and_chained_patterns() {
+    let cases: [(&str, &str); 12] = [
+        ("SELECT ?s WHERE { { ?s <http://e/p> ?o } UNION { ?s <http://e/q> ?o } UNION { ?s <http://e/r> ?o } }",
+         "pattern: Union([Bgp([(\"?s\", \"<http://e/p>\", \"?o\")]), Bgp([(\"?s\", \"<http://e/q>\", \"?o\")]), Bgp([(\"?s\", \"<http://e/r>\", \"?o\")])]), group_vars: [], order_conditions: [], limit: None"),
+        ("SELECT ?s WHERE { ?s <http://e/p> ?o . FILTER(?o > 3) ?s <http://e/q> ?z }",
+         "pattern: Join([Bgp([(\"?s\", \"<http://e/p>\", \"?o\")]), Filter(Comparison(\"?o\", \">\", \"3\")), Bgp([(\"?s\", \"<http://e/q>\", \"?z\")])]), group_vars: []"),
+        ("SELECT ?s WHERE { ?s <http://e/p> ?o , ?z }", "pattern: Bgp([(\"?s\", \"<http://e/p>\", \"?o\"), (\"?s\", \"<http://e/p>\", \"?z\")]), group_vars: []"),
+        ("SELECT ?s WHERE { ?s <http://e/p> ?o ; <http://e/q> ?z ; }", "pattern: Bgp([(\"?s\", \"<http://e/p>\", \"?o\"), (\"?s\", \"<http://e/q>\", \"?z\")]), group_vars: []"),
+        ("SELECT DISTINCT ?s WHERE { ?s <http://e/p> ?o } ORDER BY DESC(?s) LIMIT 3",
+         "distinct: true, variables: [(\"VAR\", \"?s\", None)], from: [], from_named: [], pattern: Bgp([(\"?s\", \"<http://e/p>\", \"?o\")]), group_vars: [], order_conditions: [OrderCondition { variable: \"?s\", direction: Desc }], limit: Some(3)"),
+        ("SELECT ?s WHERE { { ?s <http://e/p> ?o . { ?o <http://e/q> ?z } } }", "pattern: Join([Bgp([(\"?s\", \"<http://e/p>\", \"?o\")]), Bgp([(\"?o\", \"<http://e/q>\", \"?z\")])]), group_vars: []"),
+        ("SELECT*WHERE{?s <http://e/p> ?o}", "variables: [(\"*\", \"*\", None)], from: [], from_named: [], pattern: Bgp([(\"?s\", \"<http://e/p>\", \"?o\")]), group_vars: []"),
+        ("SELECT ?s WHERE{?s <http://e/p> 1. ?s <http://e/q> ?z}", "pattern: Join([Bgp([(\"?s\", \"<http://e/p>\", \"1\")]), Bgp([(\"?s\", \"<http://e/q>\", \"?z\")])]), group_vars: []"),
+        ("SELECT ?s WHERE { ?s <http://e/p> 1.5. }", "pattern: Bgp([(\"?s\", \"<http://e/p>\", \"1.5\")]), group_vars: []"),
+        ("SELECT ?s WHERE { ?s <http://e/p> _:b. ?s <http://e/q> \"x\". }", "pattern: Join([Bgp([(\"?s\", \"<http://e/p>\", \"_:b\")]), Bgp([(\"?s\", \"<http://e/q>\", \"\\\"x\\\"\")])]), group_vars: []"),
+        ("SELECT ?s WHERE { ?s <http://e/p> ?o FILTER(?o = 1) }", "pattern: Join([Bgp([(\"?s\", \"<http://e/p>\", \"?o\")]), Filter(Comparison(\"?o\", \"=\", \"1\"))]), group_vars: []"),
+        ("SELECT ?s WHERE { ?s <http://e/p> ?o } GROUP BY ?s", "pattern: Bgp([(\"?s\", \"<http://e/p>\", \"?o\")]), group_vars: [\"?s\"], order_conditions: [], limit: None"),
+    ];
+    for (q, want) in cases {
+        match parse_combined_query(q) {
+            Ok((rest, tree)) => {
+                assert!(rest.trim().is_empty(), "query {:?} accepted with unconsumed input {:?}", q, rest);
+                let got = format!("{:?}", tree.sparql);
+                assert!(got.contains(want), "query {:?}: the syntax tree does not have the structure the text spells out.\n  expected to contain: {}\n  got: {}", q, want, got);
+            }
+            Err(e) => panic!("query {:?} of the supported fragment is rejected: {:?}", q, e),
+        }
+    }
+    // acceptance means the whole input was consumed
+    for q in ["SELECT ?s WHERE { ?s <http://e/p> ?o } trailing", "SELECT ?s WHERE { ?s <http://e/p> ?o } }", "SELECT ?s WHERE { ?s <http://e/p> ?o } SELECT ?s WHERE { ?s ?p ?o }"] {
+        assert!(parse_combined_query(q).is_err() , "text after the end of the query must be rejected: {:?} was accepted", q);
+    }
 }
